@@ -44,7 +44,7 @@ reg(
     H("c17_change_cursor_bounds", "vecdb", "C17", mem=6, timeout=600, memsafe=True, also=("C16",),
       desc="ChangeCursor::{skip,read_values}: symbolic 64-bit counts and element sizes never overflow or read past the input (checked_mul / checked_add guard every read)",
       bounds="input 0..24 arbitrary bytes; count any usize; element size in {4,8,16,usize::MAX/2}", functions=["vecdb::ChangeCursor::{skip,read_values,check_remaining}"], stubs=[FMT, WCAP0]),
-    H("c16_parse_change_data_any_bytes", "vecdb", "C17", mem=20, timeout=1500, memsafe=True, also=("C16", "C13"),
+    H("c16_parse_change_data_any_bytes", "vecdb", "C17", mem=44, timeout=3000, tier="thorough", also=("C16", "C13"),
       desc="parse_change_data on an arbitrary byte string: Err(WrongLength|Overflow|Underflow) or a ChangeData whose vectors fit inside the input and echo its fields; no panic, allocation bounded by the input",
       bounds="record = 0..56 arbitrary bytes (truncation at every offset and arbitrary length fields included); element size 4", functions=["vecdb::ReadWriteBaseVec::parse_change_data", "vecdb::ChangeCursor"], stubs=[FMT, WCAP0]),
 )
